@@ -956,6 +956,13 @@ def sql_on_clause(prog: Program) -> RuleResult:
         r.check(ok, "EQLTranslator._apply_relationship_join#attribute-of-the-current-element", site(f, c), src(on)[:80], f"the relationship attribute is read from `{elem}`, the element the path has reached",
                 f"the join is made on `{src(on)[:60]}`, which is not the attribute of `{elem}`: from the second hop of a path on, the ON clause names the unaliased table instead of the alias "
                 f"the path came from, and the condition is applied to the selected entity's own row")
+        # inside a disjunction the path belongs to one side only: the row of an object that lacks the related object has to survive the JOIN,
+        # the other side may hold for it (or_(b.name == 'C1', b.world.id == 1) with a body that is in no world)
+        outer = kwarg(c, "isouter") if "kwarg" in globals() else next((k.value for k in c.keywords if k.arg == "isouter"), None)
+        full = next((k.value for k in c.keywords if k.arg == "full"), None)
+        ok_outer = outer is not None and ((isinstance(outer, ast.Constant) and outer.value is True) or "disjunction" in src(outer))
+        r.check(ok_outer, "EQLTranslator._apply_relationship_join#outer-inside-a-disjunction", site(f, c), src(c)[:100], "the path join is an outer join wherever a disjunction is being translated",
+                "the path join is an inner join also inside a disjunction: the row of an object without the related object is dropped although the other side of the disjunction holds for it")
     return r
 
 
